@@ -227,6 +227,7 @@ inline long double tolOf(const Lit& L) { return L.nsig > 7 ? 1e-13L : 1e-6L; }
 struct Judged {
   std::string clause, why, kind;  // kind: zero / finite / inf / nan
   long double rel = 0;            // relative error when finite and v != 0
+  int rule = ZERO;                // which of R2 (IN) / R3 (HIGH) / R4 (LOW) judged the result
 };
 
 template <typename F>
@@ -261,7 +262,7 @@ inline Judged judgeFloating(const Lit& L, F r, long double tol, long double lowB
   if (!std::isinf(r) && !std::isinf(a) && a != 0) J.rel = err / a;
   // which rule applies (R2/R3/R4), the borders are exact for the double rules (L.cls) and
   // by value for the float rules
-  int rule;
+  int& rule = J.rule;
   if (lowBorder == 0)
     rule = L.cls;  // double: exact decimal classification
   else
@@ -425,7 +426,7 @@ inline void runLiteral(Ctx& C, ParseStats& S, const std::string& text, unsigned 
         case T_FLOAT: {
           Judged J = judgeFloat(L, O.f);
           if (!J.clause.empty()) C.fail("float-" + J.clause, J.why);
-          else if (J.kind == "finite") S.maxRelF = std::max(S.maxRelF, J.rel);
+          else if (J.rule == IN) S.maxRelF = std::max(S.maxRelF, J.rel);
           C.outcome(oc + J.kind);
           break;
         }
@@ -459,7 +460,7 @@ inline void runLiteral(Ctx& C, ParseStats& S, const std::string& text, unsigned 
 }
 
 static const unsigned VIA_ALL = 7, VIA_DOC_STR = 5, VIA_STR = 4;
-static const unsigned TY_ALL = 31, TY_FLOATING = 3, TY_DOUBLE = 1;
+static const unsigned TY_ALL = 31, TY_FLOATING = 3;
 
 // ------------------------------------------------------------------------------------------
 // the integer boundary values shared by parse family (a) and print family (i)
@@ -504,8 +505,15 @@ inline void parseFamilyA(Ctx& C, ParseStats& S) {
 }
 
 inline std::vector<std::string> mantissas() {
-  std::vector<std::string> m = {"1", "9", "15", "123", "1234567", "12345678", "99999999", "8388607", "8388608",
-                                "4503599627370495", "4503599627370496", "18446744073709551615", "18446744073709551616"};
+  std::vector<std::string> m = {
+      "1", "9", "15", "123", "1234567", "12345678", "99999999", "8388607", "8388608", "4503599627370495", "4503599627370496",
+      "18446744073709551615", "18446744073709551616",
+      // zero mantissas; 2^24, 2^31, 2^32, 2^53, 2^63 and neighbours; the overflow guards of the mantissa loop
+      "0", "00", "16777216", "16777217", "2147483648", "4294967295", "4294967296", "9007199254740993", "9223372036854775807",
+      "9223372036854775808", "1844674407370955161", "1844674407370955162", "18446744073709551610", "18446744073709551620",
+      // digits of FLT_MAX, DBL_MAX, DBL_MIN, the smallest denormal and half of it, and neighbours
+      "34028234", "34028235", "34028236", "17976931348623157", "17976931348623158", "17976931348623159", "22250738585072014",
+      "49406564584124654", "24703282292062327", "24703282292062328"};
   for (int len = 1; len <= 40; len++) {
     m.push_back("1" + std::string(size_t(len - 1), '0'));
     m.push_back(std::string(size_t(len), '9'));
@@ -557,8 +565,10 @@ inline void parseFamilyB(Ctx& C, ParseStats& S) {
   uint64_t grid = 0;
   for (size_t mi = 0; mi < ms.size(); mi++) {
     const std::string& m = ms[mi];
+    std::set<std::string> bodies;
     for (size_t s = 0; s <= m.size() + 1; s++) {
       std::string body = withSplit(m, s);
+      if (!bodies.insert(body).second) continue;  // "0" -> 0.0 twice
       if (C.expired()) {
         C.note("parse(b) stopped by the deadline at mantissa #" + std::to_string(mi));
         return;
@@ -584,15 +594,16 @@ inline void parseFamilyB(Ctx& C, ParseStats& S) {
           for (auto& q : sp)
             for (int neg = 0; neg < 2; neg++) emit(q, neg);
         } else {
-          emit(sp[grid % sp.size()], int((grid / sp.size()) & 1));
+          emit(sp[grid % sp.size()], 0);
+          emit(sp[(grid / 7 + 1 + grid) % sp.size()], 1);
         }
       }
     }
   }
   C.bound(std::string("parse(b): ") + std::to_string(ms.size()) +
-          " mantissas (13 hand-picked boundaries + every length 1..40 of 10..0, 9..9, 1234567890..) x decimal point at every "
+          " mantissas (zero, type limits and guard boundaries + every length 1..40 of 10..0, 9..9, 1234567890..) x decimal point at every "
           "position (0.m .. m .. m.0) x every exponent -340..340 and none x " +
-          (T ? "every spelling (e/E, +/-/none, 0..2 leading zeros) x both signs" : "one rotating spelling and sign") +
+          (T ? "every spelling (e/E, +/-/none, 0..2 leading zeros) x both signs" : "both signs, each with one spelling rotating through all (e/E, +/-/none, 0..2 leading zeros)") +
           "; as [lit] (<= 63 characters) and as a string value; as<double>, as<float>");
 }
 
@@ -600,9 +611,9 @@ inline void parseFamilyB(Ctx& C, ParseStats& S) {
 //   P  1 0{n}            = 10^n            Q  0. 0{n} 1          = 10^-(n+1)
 //   R  1 0{n} e-n        = 1               S  0. 0{n} 1 e(n+1)   = 1
 //   U  1 0{n} e-(n-100)  = 10^100          W  9{n}               ~ 10^n
-inline void parseFamilyC(Ctx& C, ParseStats& S, bool full) {
+inline void parseFamilyC(Ctx& C, ParseStats& S) {
   std::set<long> ns;
-  for (long n = 0; n <= (full ? 1200 : 500); n++) ns.insert(n);
+  for (long n = 0; n <= 1200; n++) ns.insert(n);
   for (int k = 0; k <= 16; k++)
     for (int d = -1; d <= 1; d++) {
       long n = (1L << k) + d;
@@ -610,32 +621,26 @@ inline void parseFamilyC(Ctx& C, ParseStats& S, bool full) {
     }
   ns.insert(65534);  // longest P literal a string value can hold
   ns.insert(65532);  // longest Q literal
-  ns.insert(32767 + 15);
-  ns.insert(32767 + 16);
-  ns.insert(32767 + 17);
+  for (long n = 32767 + 14; n <= 32767 + 18; n++) ns.insert(n);  // 16-digit mantissa + int16 offset
   for (long n : ns) {
     std::string Z(size_t(n), '0');
     std::vector<std::string> forms = {"1" + Z, "0." + Z + "1", "1" + Z + "e-" + std::to_string(n),
                                       "0." + Z + "1e" + std::to_string(n + 1)};
     if (n >= 100) forms.push_back("1" + Z + "e-" + std::to_string(n - 100));
     if (n >= 1) forms.push_back(std::string(size_t(n), '9'));
-    bool reduced = !full && n > 500;  // sanitizer build: every crash costs a process
     for (auto& f : forms)
-      for (int neg = 0; neg < (reduced ? 1 : 2); neg++)
-        runLiteral(C, S, (neg ? "-" : "") + f, VIA_STR, reduced ? TY_DOUBLE : (TY_ALL & ~(1u << T_TEXT)), 0);
+      for (int neg = 0; neg < 2; neg++) runLiteral(C, S, (neg ? "-" : "") + f, VIA_STR, TY_ALL & ~(1u << T_TEXT), 0);
   }
-  C.bound(std::string("parse(c): 1 0{n}, 0. 0{n} 1, 1 0{n} e-n, 0. 0{n} 1 e(n+1), 1 0{n} e-(n-100), 9{n} through as<T>() on a "
-                      "string value for every n in 0..") +
-          (full ? "1200" : "500") + " and n in {2^k, 2^k+-1 : k <= 16} (clipped to the 65535-character string limit)" +
-          (full ? ", both signs, double/float/int64/uint64" : "; above 500 only the positive literal and as<double>"));
+  C.bound("parse(c): 1 0{n}, 0. 0{n} 1, 1 0{n} e-n, 0. 0{n} 1 e(n+1), 1 0{n} e-(n-100), 9{n} through as<T>() on a string value "
+          "for every n in 0..1200 and n in {2^k, 2^k+-1 : k <= 16} (clipped to the 65535-character string limit), both signs, "
+          "double/float/int64/uint64");
 }
 
 inline void runParse(Ctx& C) {
   std::string fam = C.opt("families", "abc");
   ParseStats S;
   if (fam.find('a') != std::string::npos) parseFamilyA(C, S);
-  if (fam.find('c') != std::string::npos) parseFamilyC(C, S, false);
-  if (fam.find('C') != std::string::npos) parseFamilyC(C, S, true);
+  if (fam.find('c') != std::string::npos) parseFamilyC(C, S);
   if (fam.find('b') != std::string::npos) parseFamilyB(C, S);
   C.metrics["parse_literals_generated"] = C.shard == 0 ? double(S.literals) : 0;
   C.metrics["parse_nontrivial_cases"] = double(S.nontrivialCases);
@@ -736,6 +741,7 @@ inline void printCase(Ctx& C, JsonDocument& doc, PrintStats& S, F x) {
     C.fail(clause, fmt("%s printed as \"%s\": error/max(1,|x|) = %.3Le (x = %.17g)", sizeof(F) == 4 ? "float" : "double", buf, e,
                        double(x)));
   }
+  if (C.verbose && !*clause && e > (sizeof(F) == 4 ? 0.9e-6L : 0.9e-9L)) printf("NEAR %s \"%s\" %.3Le\n", key.c_str(), buf, e);
   long double a = fabsl((long double)x);
   const char* range = std::isnan(x) ? "nan" : std::isinf(x) ? "inf" : a == 0 ? "zero" : a < 1e-300L ? "below" : a > 1e300L ? "above" : "in";
   bool hasE = memchr(buf, 'e', len) != nullptr, hasDot = memchr(buf, '.', len) != nullptr;
@@ -889,34 +895,36 @@ inline void printFamilyD(Ctx& C, PrintStats& S) {
           "7,23,24,25,31,32,52,53,54,63,64) with both neighbours and +-0.5/1/2; type limits; both signs");
 }
 
-// (F)/(G) every float value, as float / as double.  One journalled case per block of 65536
-// values; every value is executed and counted, failures are reported with their own key.
-inline void printAllFloats(Ctx& C, PrintStats& S, bool asDouble) {
+// Block loops: one journalled case per block of 65536 values; every value is executed and
+// counted, failures are reported under the key of the individual value.  Every failing
+// value is counted (metric print_values_failed); at most 4 per (block, clause) are matched
+// against the known findings and written out, so that a deviation that hits tens of millions
+// of values does not cost a regex search each (distinct deviations have distinct clauses).
+template <typename F, typename Gen>
+inline void printBlocks(Ctx& C, PrintStats& S, char family, uint32_t nBlocks, const std::function<std::string(uint32_t)>& blockKey,
+                        Gen gen) {
   JsonDocument doc;
   char buf[96];
-  for (uint32_t blk = 0; blk < 65536; blk++) {
+  for (uint32_t blk = 0; blk < nBlocks; blk++) {
     if (!C.take()) continue;
     if (C.expired()) {
-      C.note(fmt("print(%c) stopped by the deadline at block %04x", asDouble ? 'G' : 'F', blk));
+      C.note(fmt("print(%c) stopped by the deadline at block %u of %u", family, blk, nBlocks));
       return;
     }
-    C.begin(fmt("print:%s:%04x0000-%04xffff", asDouble ? "double-of-float" : "float", blk, blk));
+    C.begin(blockKey(blk));
     uint64_t nt0 = S.nontrivial, v0 = S.values;
     std::map<std::string, int> perClause;
     for (uint32_t lo = 0; lo < 65536; lo++) {
-      float x = floatOf((blk << 16) | lo);
+      F x = gen(blk, lo);
       size_t len;
       long double e;
-      const char* clause = asDouble ? printOne<double>(doc, double(x), S, buf, sizeof buf, len, e)
-                                    : printOne<float>(doc, x, S, buf, sizeof buf, len, e);
+      const char* clause = printOne<F>(doc, x, S, buf, sizeof buf, len, e);
       if (*clause) {
         S.failed++;
-        // every failing value is counted; at most 4 per (block, clause) are matched against
-        // the known findings and written out (a deviation that hits millions of values must
-        // not cost a regex search each)
         if (++perClause[clause] <= 4)
-          C.failKey(asDouble ? doubleKey(double(x)) : floatKey(x), clause,
-                    fmt("%s printed as \"%s\": error/max(1,|x|) = %.3Le (x = %.17g)", asDouble ? "double" : "float", buf, e, double(x)));
+          C.failKey(sizeof(F) == 4 ? floatKey(float(x)) : doubleKey(double(x)), clause,
+                    fmt("%s printed as \"%s\": error/max(1,|x|) = %.3Le (x = %.17g)", sizeof(F) == 4 ? "float" : "double", buf, e,
+                        double(x)));
       }
     }
     C.evaluations += (S.values - v0) - 1;  // begin() counted the block as one
@@ -924,7 +932,37 @@ inline void printAllFloats(Ctx& C, PrintStats& S, bool asDouble) {
     C.outcome(perClause.empty() ? "print:block:clean" : "print:block:with-failures");
     C.end();
   }
+}
+
+// (F)/(G) every float value, as float / as double
+inline void printAllFloats(Ctx& C, PrintStats& S, bool asDouble) {
+  if (asDouble)
+    printBlocks<double>(
+        C, S, 'G', 65536, [](uint32_t b) { return fmt("print:double-of-float:%04x0000-%04xffff", b, b); },
+        [](uint32_t b, uint32_t lo) { return double(floatOf((b << 16) | lo)); });
+  else
+    printBlocks<float>(
+        C, S, 'F', 65536, [](uint32_t b) { return fmt("print:float:%04x0000-%04xffff", b, b); },
+        [](uint32_t b, uint32_t lo) { return floatOf((b << 16) | lo); });
   C.bound(asDouble ? "print(G): all 2^32 float values given as double" : "print(F): all 2^32 float values");
+}
+
+// (D) doubles: every (sign, exponent) x every value of the top 16 mantissa bits x the low 36
+// bits all-zero / all-one / 0x555555555 / one  (4 x 4094 blocks of 65536 values)
+inline void printDoubleGrid(Ctx& C, PrintStats& S) {
+  static const uint64_t fills[4] = {0, 0xFFFFFFFFFULL, 0x555555555ULL, 1};
+  printBlocks<double>(
+      C, S, 'D', 4 * 4094,
+      [](uint32_t b) {
+        uint32_t se = b / 4;
+        return fmt("print:double:%03x[0000-ffff]%09llx", (se / 2047) * 0x800 + se % 2047, (unsigned long long)fills[b & 3]);
+      },
+      [](uint32_t b, uint32_t lo) {
+        uint64_t se = b / 4, sign = se / 2047, ex = se % 2047;
+        return doubleOf((sign << 63) | (ex << 52) | (uint64_t(lo) << 36) | fills[b & 3]);
+      });
+  C.bound("print(D): double: every (sign, exponent 0..2046) x all 65536 values of the top 16 mantissa bits x low 36 bits in "
+          "{0, all ones, 0x555555555, 1}");
 }
 
 inline void runPrint(Ctx& C) {
@@ -936,6 +974,7 @@ inline void runPrint(Ctx& C) {
   if (fam.find('d') != std::string::npos) printFamilyD(C, S);
   if (fam.find('F') != std::string::npos) printAllFloats(C, S, false);
   if (fam.find('G') != std::string::npos) printAllFloats(C, S, true);
+  if (fam.find('D') != std::string::npos) printDoubleGrid(C, S);
   C.metrics["print_values"] = double(S.values);
   C.metrics["print_values_judged"] = double(S.judged);
   C.metrics["print_values_nontrivial"] = double(S.nontrivial);
